@@ -579,3 +579,57 @@ def c26(tier, seed):
         steps += [{"do": "heal"}, {"do": "quiesce", "ms": 3000}, {"do": "take_f", "final": True}, {"do": "final"}]
         out.append({"name": f"C26-{family}-{field}{op}-{k}", "family": family, "seed": seed * 67 + k, "frag": 1344, "steps": steps})
     return out
+
+
+ADV_DEFAULTS = {}
+
+
+def adv_family(msg, defaults):
+    """family of an adversarial message: submessage kinds and the fields that differ from the default"""
+    parts = []
+    if msg.get("hdr", "ok") != "ok":
+        parts.append("hdr=" + msg["hdr"])
+    if msg.get("truncate"):
+        parts.append("truncated")
+    for s in msg["subs"]:
+        d = defaults.get(s["k"], {})
+        ch = sorted(f for f in s if f != "k" and d.get(f) != s[f])
+        parts.append(s["k"] + ("[" + "+".join(f"{f}={s[f]}" for f in ch) + "]" if ch else ""))
+    return "/".join(parts)
+
+
+def c06(tier, seed, cases):
+    """every adversarial message of Adversary.tla (quick: all single-field variants, header/truncation/prefix variants
+    and a seeded quarter of the two-field variants) injected into a victim with live user endpoints in both directions"""
+    rng = random.Random(seed)
+    defaults = {}
+    for m in cases:
+        if len(m["subs"]) == 1 and m["hdr"] == "ok" and not m["truncate"]:
+            k = m["subs"][0]["k"]
+            defaults.setdefault(k, []).append(m["subs"][0])
+    # the default of a kind is the variant that shares the most field values with all others
+    dflt = {}
+    for k, subs in defaults.items():
+        best = max(subs, key=lambda s: sum(sum(1 for f in s if o.get(f) == s[f]) for o in subs))
+        dflt[k] = best
+    out = []
+    for n, m in enumerate(cases):
+        m = dict(m)
+        m["id"] = n
+        fam = adv_family(m, dflt)
+        nchanged = sum(1 for s in m["subs"] for f in s if f != "k" and dflt.get(s["k"], {}).get(f) != s[f])
+        if tier == "quick" and nchanged >= 2 and len(m["subs"]) == 1 and rng.random() > 0.25:
+            continue
+        steps = [{"do": "participant"}, {"do": "participant"},
+                 {"do": "create_writer", "part": 0, "qos": q()}, {"do": "create_reader", "part": 1, "qos": q()},
+                 {"do": "create_writer", "part": 1, "qos": q()}, {"do": "create_reader", "part": 0, "qos": q()},
+                 {"do": "sleep", "ms": 800},
+                 {"do": "write", "w": 0, "i": 1, "len": 8}, {"do": "write", "w": 0, "i": 2, "len": 8},
+                 {"do": "write", "w": 1, "i": 1, "len": 8}, {"do": "write", "w": 1, "i": 1, "len": 3000},
+                 {"do": "sleep", "ms": 300},
+                 {"do": "inject", "to": 1, "known": 0, "peer_writer": 0, "victim_reader": 0, "victim_writer": 1, "peer_reader": 1, "msgs": [m]},
+                 {"do": "sleep", "ms": 300},
+                 {"do": "probe", "victim": 1, "victim_reader": 0, "victim_writer": 1, "tag": 200},
+                 {"do": "final"}]
+        out.append({"name": f"C06-{n}", "family": fam, "seed": seed * 71 + n, "frag": 1344, "steps": steps})
+    return out
